@@ -38,6 +38,7 @@ type Clause struct {
 	Ord    int // ordinal among clauses of same kind in the contract
 	File   string
 	LineNo int
+	After  string // for assert clauses: the local variable after whose definition the assertion is placed
 }
 
 type Modifies struct {
@@ -64,6 +65,7 @@ type Contract struct {
 	Ensures  []*Clause
 	Canaries []*Clause
 	Invs     []*Clause
+	Asserts  []*Clause
 	Mods     []Modifies
 	Lets     []LetDef
 	Trusted  bool
@@ -77,6 +79,7 @@ type Contract struct {
 
 var reHead = regexp.MustCompile(`^(func|iface)\s+(.*)$`)
 var reTagged = regexp.MustCompile(`^(safety|requires|ensures|canary)(\[[A-Za-z0-9!, ]*\])?\s*(.*)$`)
+var reAssert = regexp.MustCompile(`^assert(\[[A-Za-z0-9!, ]*\])?\s+after\s+([A-Za-z_][A-Za-z0-9_]*)\s*:\s*(.*)$`)
 var reLoop = regexp.MustCompile(`^loop\s+(\d+)\s+(invariant|modifies|decreases)(\[[A-Za-z0-9!, ]*\])?\s+(.*)$`)
 
 func parseTags(s string) []string {
@@ -218,6 +221,13 @@ func (cs *ContractSet) loadFile(path string, ext bool) error {
 		if cur == nil {
 			return fmt.Errorf("%s:%d: clause outside func: %s", path, lineNo, body)
 		}
+		if m := reAssert.FindStringSubmatch(body); m != nil {
+			cl := &Clause{Kind: "assert", Tags: parseTags(m[1]), Text: m[3], After: m[2], File: path, LineNo: lineNo}
+			cl.Ord = len(cur.Asserts) + 1
+			cur.Asserts = append(cur.Asserts, cl)
+			lastText = &cl.Text
+			continue
+		}
 		if m := reLoop.FindStringSubmatch(body); m != nil {
 			k, _ := strconv.Atoi(m[1])
 			switch m[2] {
@@ -300,7 +310,7 @@ func parseModifies(s string, loop int) (Modifies, error) {
 // finish parses all clause expressions.
 func (cs *ContractSet) finish() error {
 	for _, c := range cs.M {
-		all := [][]*Clause{c.Requires, c.Ensures, c.Canaries, c.Invs}
+		all := [][]*Clause{c.Requires, c.Ensures, c.Canaries, c.Invs, c.Asserts}
 		for _, l := range all {
 			for _, cl := range l {
 				e, err := parseExpr(cl.Text)
